@@ -9,6 +9,30 @@ sys.path.insert(0, os.path.dirname(os.path.abspath(__file__)))
 import common  # noqa: E402
 
 
+def generic_replay(pid, mod, res, data):
+    """Re-execute a recorded failing input.  Model-checking replays (logic / structure / formula / entry) are re-run
+    on implementation and model directly; any other replay re-runs the whole check with the recorded seed (the
+    recorded input is part of what the check enumerates or draws from that seed)."""
+    rp = data.get('replay', {})
+    print('replaying %s: %s' % (data.get('property'), data.get('what', '')[:300]))
+    if isinstance(rp, dict) and {'logic', 'structure', 'formula_sexpr'} <= set(rp):
+        from checks import mc_common
+        K = common.KS(rp['structure']['succ'], rp['structure']['labels'])
+        t = common.parse_sexpr(rp['formula_sexpr'])
+        a = mc_common.norm(mc_common.impl_one((rp['logic'], K.succ, K.labs, t, rp.get('entry', 'obj'))))
+        m = mc_common.norm(common.lean_batch(['%s|%s|%s' % (rp['logic'], K.enc(), common.sexpr(t))])[0])
+        print('implementation: %s\nmodel:          %s' % (a, m))
+        if a != m:
+            print('VIOLATION property=%s replay=%s' % (pid, sys.argv[sys.argv.index('--replay') + 1]))
+            return 1
+        print('OK the recorded input no longer fails')
+        return 0
+    os.environ['VERIF_SEED'] = str(data.get('seed', 0))
+    common.SEED = int(data.get('seed', 0))
+    mod.run(res)
+    return res.finish()
+
+
 def main():
     args = sys.argv[1:]
     if not args:
@@ -35,7 +59,7 @@ def main():
         if replay:
             with open(replay) as f:
                 data = json.load(f)
-            rc = mod.replay(res, data) if hasattr(mod, 'replay') else 2
+            rc = generic_replay(pid, mod, res, data)
             sys.exit(rc)
         mod.run(res)
         rc = res.finish()
